@@ -738,6 +738,44 @@ def f_iter_sentinel():
     return n, rest, src
 
 
+def _walk(src, log):
+    log.append('start')
+    while src:
+        log.append(('before', len(src)))
+        yield src[0]
+        log.append(('after', len(src)))
+    log.append('end')
+
+
+def _outer(src, log):
+    yield 'head'
+    yield from _walk(src, log)
+    yield 'tail'
+
+
+def f_lazy_generators():
+    src, log = [5, 6, 7], []
+    g = _outer(src, log)
+    first = next(g)
+    log.append('created')
+    seen = []
+    for x in g:
+        seen.append(x)
+        if src:
+            src.pop(0)          # the consumer consumes the shared state between two items
+    g2 = _walk([1], [])
+    a = next(g2)
+    def boom():
+        yield 1
+        raise KeyError('late')
+    try:
+        r = list(boom())
+    except KeyError as e:
+        r = 'raised at consumption'
+    b = boom()
+    return first, seen, log, a, r, next(b), next(iter(_walk([], [])), 'empty')
+
+
 def f_str_bits():
     s = bin(0b101101)[2:]
     return s, s.zfill(8), int(s[::-1], 2), s.count('1'), s.rfind('1'), s[:3] + '0' * 2, '{:08b}'.format(5), f'{5:08b}'[-3:], ''.join('1' if c == '0' else '0' for c in s)
